@@ -1,7 +1,7 @@
 (* Properties_C12.v -- a simulator run depends only on the binary, the input and the options.
    Model: SimModel.v (cpp_init = the constructor with memory{} and exitCode(0); run / run_traced; guard = the cycle limit). *)
 From Coq Require Import ZArith List Lia.
-From HexVerif Require Import WMap Isa SimModel SimProofs SimProofs12.
+From HexVerif Require Import WMap Isa SimModel SimProofs SimProofs12 Loader.
 Import ListNotations.
 Local Open Scope Z_scope.
 
@@ -62,3 +62,19 @@ Print Assumptions C12_cycle_limit_defined.
 Example C12_nonvacuous : rd (s_mem (cpp_init demo_image)) 100 = 0 /\
   exit_of (SimModel.run 20 0 (cpp_init demo_image) {| console := []; files := fun _ => [] |} []) = Returned 0.
 Proof. split; vm_compute; reflexivity. Qed.
+
+(* the loader model (Loader.load_file, tied to Processor::load by tools/c12.py on well-formed and malformed files) is a
+   total function of the file's bytes: it reads no other state, and rejects what the repaired C++ rejects *)
+Definition demo_file : list Z :=        (* 2 words; 1 string "m"; 1 symbol (0, 8) *)
+  [2;0;0;0; 151;0;0;0; 100;0;0;0;  1;0;0;0; 109;0;  1;0;0;0; 0;0;0;0; 8;0;0;0].
+Example C12_loader_examples :
+  Loader.load_file demo_file = Some ([151; 100], [([109], 8)]) /\
+  Loader.load_file (demo_file ++ [0]) = Some ([151; 100], [([109], 8)]) /\   (* bytes after the tables are not read *)
+  Loader.load_file (firstn 12 demo_file ++ [1]) = None /\                    (* one stray byte: a truncated string count *)
+  Loader.load_file (firstn 17 demo_file) = None /\                           (* string without its NUL *)
+  Loader.load_file (firstn 25 demo_file) = None /\                           (* symbol entry cut *)
+  Loader.load_file [2;0;0] = None /\ Loader.load_file [] = None /\           (* no header *)
+  Loader.load_file [65;13;3;0; 1;2;3;4] = None /\                            (* 200001 words: larger than the memory *)
+  Loader.load_file [1;0;0;64; 1;2;3;4] = Some ([67305985], []) /\   (* 0x40000001 << 2 wraps to 4 bytes *)
+  Loader.load_file (firstn 12 demo_file ++ [1;0;0;0; 109;0; 1;0;0;0; 5;0;0;0; 8;0;0;0]) = None.   (* string index 5 of 1 *)
+Proof. vm_compute. repeat split; reflexivity. Qed.
